@@ -9,6 +9,7 @@ from __future__ import annotations
 
 import asyncio
 import itertools
+import os
 import random
 import shutil
 import tempfile
@@ -37,6 +38,9 @@ LEVEL_NOTE = ("proved for the model, not for the Python source: the TLS handshak
               "the model/code correspondence is established by generated histories (length <= 12 quick, <= 40 thorough, exhaustive for 2 hosts x 2 "
               "certificates x length <= 4 in thorough), not by proof")
 TECHNIQUE = "interactive theorem proving (Lean 4, induction over histories) + model-based differential testing against live loopback TLS peers"
+
+# the pin store is SQLite with a commit per operation: keep it on tmpfs when there is one
+SHM = "/dev/shm" if os.path.isdir("/dev/shm") and os.access("/dev/shm", os.W_OK) else None
 
 HOSTS = ["localhost", "127.0.0.1", "127.0.0.2"]
 CERTS = ["rsa", "ec", "ed", "hostile"]           # certificate index -> name in the peer's CertStore
@@ -72,6 +76,10 @@ class Runner:
         self.fps = fp_table(self.w)
         self.fpid = {f: i for i, f in enumerate(self.fps)}
         self.ports = [p.port for p in self.peers]
+        self.loop = asyncio.new_event_loop()     # one loop per process: asyncio.run's teardown (executor shutdown) costs 40 ms a call
+
+    def run(self, coro):
+        return self.loop.run_until_complete(coro)
 
     def hid(self, hostname):
         return HOSTS.index(hostname) if hostname in HOSTS else f"?{hostname}"
@@ -236,7 +244,7 @@ def _client_ctx():
 class Histories(Family):
     """random histories over 3 hosts x 2 ports x 4 certificates (+ loader failures, near-miss fingerprints)"""
     name = "histories"
-    quick_n = 640
+    quick_n = 1000
     thorough_n = 4000
     parallel = True          # every process binds its own ports (port 0) in setup()
     max_len_quick = 12
@@ -304,7 +312,7 @@ class Histories(Family):
         from nauyaca.security.tofu import TOFUDatabase
 
         R = self.R
-        tmp = tempfile.mkdtemp(prefix="nv-")
+        tmp = tempfile.mkdtemp(prefix="nv-", dir=SHM)
         db = Path(tmp) / "tofu.db"
         steps = []
 
@@ -356,7 +364,7 @@ class Histories(Family):
                 steps.append(st)
 
         try:
-            asyncio.run(run())
+            R.run(run())
         finally:
             shutil.rmtree(tmp, ignore_errors=True)
         return steps
@@ -451,11 +459,12 @@ class Histories(Family):
 
 
 class SmallScope(Family):
-    """every history of length <= L over 2 hosts (one port) x 2 certificates (thorough: L = 4)"""
+    """EVERY history of length <= L over 2 hosts (one port) x 2 certificates; L = 2 in the quick tier, 4 in thorough.
+    The enumeration is split over the shards with Family.share (never cut); one GeminiClient object per history."""
     name = "small_scope"
-    quick_n = 110          # lengths 1 and 2
-    thorough_n = 7400      # lengths 1..4  (9 + 81 + 729 + 6561 = 7380)
-    parallel = False       # one enumeration, not to be repeated in every shard
+    quick_n = 96           # 9 + 81 = 90 histories of length <= 2 (+ a few random ones of length 3)
+    thorough_n = 7400      # 9 + 81 + 729 + 6561 = 7380 histories of length <= 4
+    parallel = True        # ports are bound per process in setup(); the enumeration is shared out, not repeated
     shared_ctx = True
 
     ALPHA = ([["get", h, 0, c, ""] for h in (0, 1) for c in (0, 1)] + [["revoke", 0, 0], ["revoke", 1, 0], ["clear"],
@@ -465,13 +474,20 @@ class SmallScope(Family):
         self.R = Runner()
 
     def gen(self, rng, n):
+        total = n * self.shard[1]
+        depth = 4 if total >= 7380 else 2
+
+        def everything():
+            for ln in range(1, depth + 1):
+                for combo in itertools.product(self.ALPHA, repeat=ln):
+                    yield {"tofu": True, "fresh": False, "ops": [list(o) for o in combo]}
+
         count = 0
-        for ln in (1, 2, 3, 4):
-            for combo in itertools.product(self.ALPHA, repeat=ln):
-                if count >= n:
-                    return
-                count += 1
-                yield {"tofu": True, "fresh": False, "ops": [list(o) for o in combo]}
+        for c in self.share(everything()):
+            count += 1
+            yield c
+        for _ in range(max(0, n - count)):
+            yield {"tofu": True, "fresh": False, "ops": [list(rng.choice(self.ALPHA)) for _ in range(depth + 1)]}
 
     impl = Histories.impl
     model = Histories.model
